@@ -64,6 +64,7 @@ import collections
 import copy
 
 from absl import logging
+import numpy as np
 import tensorflow as tf
 # pylint: disable=g-import-not-at-top
 # Use Keras 2.
@@ -97,6 +98,11 @@ class _Config(object):
       config.pop('self')
     if '__class__' in config:
       config.pop('__class__')
+    # Keypoints and output initialization are often numpy arrays (for example
+    # from compute_keypoints); plain lists survive every Keras saving format.
+    for key, value in config.items():
+      if isinstance(value, np.ndarray):
+        config[key] = value.tolist()
     if 'feature_configs' in config and config['feature_configs'] is not None:
       config['feature_configs'] = [
           keras.utils.legacy.serialize_keras_object(feature_config)
